@@ -2,6 +2,7 @@ import ThriftVerif.Properties.C01
 import ThriftVerif.Facts.ExpectWire
 import ThriftVerif.Facts.ExpectGen
 #print axioms ThriftVerif.Properties.C01.roundtrip_all_paths_partial
+#print axioms ThriftVerif.Properties.C01.serialisation_injective
 #print axioms ThriftVerif.Properties.C01.field_order_irrelevant
 #print axioms ThriftVerif.Properties.C01.set_order_irrelevant
 #print axioms ThriftVerif.Properties.C01.map_order_irrelevant
